@@ -2,11 +2,16 @@ package cdrv
 
 import (
 	"bytes"
+	"math/rand"
+	"sync"
+
 	"context"
 	"encoding/json"
 	"fmt"
 	"math/big"
 	"os"
+	"perun.network/go-perun/apps/payment"
+	simchannel "perun.network/go-perun/backend/sim/channel"
 	"testing"
 	"testing/synctest"
 
@@ -34,6 +39,20 @@ type csCase struct {
 	Mutant string `json:"mutant"`
 	Expect string `json:"expect"`
 	line   string
+}
+
+var (
+	payAppOnce sync.Once
+	payAppV    *payment.App
+)
+
+// payApp returns the payment app of the harness (registered once with the app registry).
+func payApp() *payment.App {
+	payAppOnce.Do(func() {
+		payAppV = &payment.App{ID: simchannel.NewRandomAppID(rand.New(rand.NewSource(99)))}
+		channel.RegisterApp(payAppV)
+	})
+	return payAppV
 }
 
 // pump delivers pending envelopes (except those `keep` selects) and lets H accept proposals, until nothing moves.
@@ -78,7 +97,11 @@ func runCountersignCase(t *testing.T, c *csCase, proto bool, idx int) (signed bo
 		w := NewWorld(t, int64(idx)+1, "H", "P", "X")
 		defer w.Close()
 		h, p, x := w.P[0], w.P[1], w.P[2]
-		chP, chH, err := w.OpenLedgerChannel(p, h, 60, 10, 10) // P is participant 0 and may propose sub-channels
+		var oopts []client.ProposalOpts
+		if c.Msg.Sit == "app" {
+			oopts = append(oopts, client.WithApp(payApp(), payment.Data()))
+		}
+		chP, chH, err := w.OpenLedgerChannel(p, h, 60, 10, 10, oopts...) // P is participant 0 and may propose sub-channels
 		if err != nil {
 			note = "setup: " + err.Error()
 			return
@@ -125,6 +148,7 @@ func runCountersignCase(t *testing.T, c *csCase, proto bool, idx int) (signed bo
 			return subP, subH, nil, subP != nil && subH != nil
 		}
 		var settleBase [2]int64 // parent balances when the sub-channel was finalised
+		var settledID channel.ID
 		switch c.Msg.Sit {
 		case "funding":
 			_, _, held, ok := openSub(true)
@@ -147,11 +171,18 @@ func runCountersignCase(t *testing.T, c *csCase, proto bool, idx int) (signed bo
 				note = "setup: the second sub-channel did not open"
 				return
 			}
-		case "settle":
+		case "settle", "settle2":
 			subP, subH, _, ok := openSub(false)
 			if !ok {
 				note = "setup: the sub-channel did not open"
 				return
+			}
+			settledID = subH.ID()
+			if c.Msg.Sit == "settle2" { // a second sub-channel stays open
+				if _, _, _, ok := openSub(false); !ok {
+					note = "setup: the second sub-channel did not open"
+					return
+				}
 			}
 			upd := func(ch *client.Channel, f func(*channel.State)) bool {
 				done := make(chan error, 1)
@@ -174,9 +205,13 @@ func runCountersignCase(t *testing.T, c *csCase, proto bool, idx int) (signed bo
 				return
 			}
 			settleBase = [2]int64{7, 7}
+			if c.Msg.Sit == "settle2" {
+				settleBase = [2]int64{4, 4}
+			}
 			// then the parent is updated: P pays H 1 (7/7 -> 6/8)
 			if !upd(chP, func(s *channel.State) {
-				s.Balances[0][0], s.Balances[0][1] = big.NewInt(6), big.NewInt(8)
+				s.Balances[0][0] = new(big.Int).Sub(s.Balances[0][0], big.NewInt(1))
+				s.Balances[0][1] = new(big.Int).Add(s.Balances[0][1], big.NewInt(1))
 			}) {
 				note = "setup: the parent payment failed"
 				return
@@ -197,12 +232,17 @@ func runCountersignCase(t *testing.T, c *csCase, proto bool, idx int) (signed bo
 			honest = cur.Clone()
 			honest.Version++
 		}
-		if c.Msg.Sit == "settle" { // honest settlement: the sub-allocation goes, everybody is credited its final sub-channel balance
-			if len(cur.Locked) != 1 {
+		if c.Msg.Sit == "settle" || c.Msg.Sit == "settle2" { // honest settlement: the sub-allocation goes, everybody is credited its final sub-channel balance
+			if (c.Msg.Sit == "settle") != (len(cur.Locked) == 1) || len(cur.Locked) == 0 {
 				note = "setup: unexpected parent state before settlement"
 				return
 			}
 			honest.Locked = nil
+			for _, sa := range cur.Clone().Locked {
+				if sa.ID != settledID {
+					honest.Locked = append(honest.Locked, sa)
+				}
+			}
 			honest.Balances[0][0] = big.NewInt(cur.Balances[0][0].Int64() + 2)
 			honest.Balances[0][1] = big.NewInt(cur.Balances[0][1].Int64() + 4)
 		}
@@ -280,6 +320,9 @@ func runCountersignCase(t *testing.T, c *csCase, proto bool, idx int) (signed bo
 			st.Balances[0][hIdx] = big.NewInt(cur.Balances[0][hIdx].Int64() + 2)
 		case "keeplocked":
 			st.Locked = cur.Clone().Locked
+		case "skim": // the peer takes one unit more, out of the other sub-channel's sub-allocation
+			st.Balances[0][pIdx] = new(big.Int).Add(st.Balances[0][pIdx], big.NewInt(1))
+			st.Locked[0].Bals[0] = new(big.Int).Sub(st.Locked[0].Bals[0], big.NewInt(1))
 		}
 		_ = subID
 		actor := channel.Index(pIdx)
